@@ -193,10 +193,17 @@ func (c *c09Case) oracle(exemptZeroCRC bool) (bool, string) {
 		chk := func(k []byte, v []byte, isNil bool, where string) (bool, string) {
 			for _, kv := range c.KVs {
 				if bytes.Equal(kv.K, k) {
-					if len(kv.val()) == 0 {
-						return true, "" // empty / nil values carry a zero checksum by design
+					// a key whose index checksum is zero (empty and nil values by format design, and non-empty values whose
+					// CRC-64/ISO happens to be zero) is not protected by any check: finding F-C09a
+					zeroCRC := len(kv.val()) == 0 || crc64.Checksum(kv.val(), crc64ISO) == 0
+					if exemptZeroCRC && zeroCRC {
+						return true, ""
 					}
-					if exemptZeroCRC && crc64.Checksum(kv.val(), crc64ISO) == 0 {
+					if len(kv.val()) == 0 {
+						// an empty / nil value must stay empty / nil
+						if len(v) != 0 {
+							return false, fmt.Sprintf("%s at %d (->%02x): %s returned the non-empty value %x for key %x, whose written value is empty/nil, without error", ob.Kind, ob.Pos, ob.Val, where, v, k)
+						}
 						return true, ""
 					}
 					if isNil || !bytes.Equal(v, kv.val()) {
